@@ -1241,6 +1241,11 @@ class Analyzer(Analysis):
             elif re.search(r"::<impl (str|\[T\])>::(splitn|rsplitn)$", name) and len(vals) >= 2:
                 result = ("splitn", self.as_lin(vals[1]))
                 handled = True
+            elif re.search(r"::<impl (str|\[T\])>::(split|rsplit|split_inclusive)$", name) and len(vals) >= 2 and \
+                    not (name.endswith("split_inclusive")):
+                # split / rsplit yield at least one (possibly empty) piece, at most len + 1
+                result = ("splitn", Lin.const(1 << 40))
+                handled = True
             elif name == "std::iter::Iterator::collect" and vals and vals[0] is not None and vals[0][0] == "splitn" \
                     and dest_ty["k"] == "adt" and dest_ty["name"].endswith("vec::Vec"):
                 # splitn(n, ..) with n >= 1 always yields at least one item and at most n
